@@ -162,12 +162,12 @@ SAMPLES = [
 # ---------------------------------------------------------------------------------------------
 PROFILES = {
     # op weights per property
-    "C11": dict(derive=35, md=9, qmd=8, term=5, fail=8, rebind=3, unbind=0, touch=1,
+    "C11": dict(derive=35, md=9, qmd=8, term=5, fail=8, rebind=3, unbind=0, touch=1, open_ds=3,
                 exec_sync=10, spawn=12, cancel=3, sleep=5, drain=1, join=1, rootless=0, mt=2,
                 lookup_deep=1),
-    "C12": dict(derive=24, md=9, qmd=4, term=6, fail=3, rebind=1, unbind=0, touch=0,
+    "C12": dict(derive=24, md=9, qmd=4, term=6, fail=3, rebind=1, unbind=0, touch=0, open_ds=2,
                 exec_sync=10, spawn=30, cancel=6, sleep=8, drain=2, join=2, rootless=1, mt=5),
-    "C16": dict(derive=24, md=5, qmd=32, term=5, fail=2, rebind=1, unbind=0, touch=0,
+    "C16": dict(derive=24, md=5, qmd=32, term=5, fail=2, rebind=1, unbind=0, touch=0, open_ds=1,
                 exec_sync=9, spawn=8, cancel=1, sleep=3, drain=1, join=0, rootless=0,
                 lookup_deep=9),
     "C04": dict(derive=40, md=2, qmd=2, term=1, fail=0, rebind=26, unbind=4, touch=4,
@@ -392,6 +392,11 @@ def generate(prop: str, seed: int, tier: str = "quick", fault_free: bool = False
     typed_ok = "typed" in faults and prop != "C04"
     datasets = [{"typed": (c.randrange(4) if typed_ok and c.random() < 0.55 else -1)}
                 for _ in range(n_ds)]
+    for i, d in enumerate(datasets):
+        if not fault_free and c.random() < 0.25:
+            d["extra"] = f"file{i}.root"  # the class appends an argument to its own root node
+        if not fault_free and c.random() < 0.25:
+            d["wrapped"] = True  # executor with a (*args, **kwargs) signature
     catalog = list(UNTYPED) + (list(TYPED) if any(d["typed"] >= 0 for d in datasets) else [])
     pool = [list(c.choice(catalog)) for _ in range(c.randint(3, 8))]
     sites = [gen_site(c, boom_ok="capture_fault" in faults) for _ in range(c.randint(2, 8))]
@@ -422,6 +427,8 @@ def generate(prop: str, seed: int, tier: str = "quick", fault_free: bool = False
         weights["mt"] = 0
     if "small_stack" not in faults:
         weights["lookup_deep"] = 0
+    if fault_free:
+        weights["open_ds"] = 0
     modes = dict(MODE_W[prop])
     if "shared_ast" not in faults:
         modes["shared"] = 0
@@ -501,6 +508,11 @@ def generate(prop: str, seed: int, tier: str = "quick", fault_free: bool = False
             if w.random() < 0.35:  # consecutive calls on the stream just made
                 md2 = {w.choice(KEYS[:5]): w.choice(QVALS)}
                 ops.append({"op": "qmd", "parent": -1, "md": md2})
+        elif k == "open_ds":
+            # another dataset object is created in the middle of the history
+            ops.append({"op": "open_ds", "typed": (c.randrange(4) if typed_ok and w.random() < 0.4 else -1),
+                        "extra": w.choice([None, "late.root", "late.root", "b.root"]),
+                        "wrapped": w.random() < 0.25})
         elif k == "lookup_deep":
             # a look-up made deep in the stack: it may overflow, it may not answer wrongly.
             # Mostly for a key the run has set (often more than once), on a recent stream
@@ -775,17 +787,29 @@ class Forest:
         eng = self
 
         class FakeDataset(EventDataset):
-            def __init__(self, idx, item_type):
+            def __init__(self, idx, item_type, extra=None):
                 if item_type is None:
                     super().__init__()
                 else:
                     super().__init__(item_type)
                 self.idx = idx
+                if extra is not None:
+                    # a back end that keeps the file name as an argument of its root node
+                    self.query_ast.args.append(ast.Constant(extra))  # type: ignore
 
             async def execute_result_async(self, a, title=None):
                 return await eng.peer_exec(self.idx, self, a, title)
 
+        class WrappedDataset(FakeDataset):
+            "The executor went through a decorator written without functools.wraps."
+
+            async def execute_result_async(self, *args, **kwargs):
+                a = args[0]
+                title = args[1] if len(args) > 1 else kwargs.get("title", "<no title given>")
+                return await eng.peer_exec(self.idx, self, a, title)
+
         self.FakeDataset = FakeDataset
+        self.WrappedDataset = WrappedDataset
 
     # -- bookkeeping -------------------------------------------------------------------------
     def stat(self, k, n=1):
@@ -878,6 +902,13 @@ class Forest:
                 return await eng.peer_exec(tag, None, a, title)
 
             return functools.partial(ov3, "OV2")
+        if k == 4:  # a (*args) signature, e.g. behind a retry decorator
+
+            async def ov5(*args, **kwargs):
+                title = args[1] if len(args) > 1 else kwargs.get("title", "<no title given>")
+                return await eng.peer_exec("OV4", None, args[0], title)
+
+            return ov5
         if k == 3:  # a bound method of some service object
 
             class Service:
@@ -920,10 +951,11 @@ class Forest:
         self.end_order = []
         for i, d in enumerate(self.cfg["datasets"]):
             t = zoo.EVT[d["typed"]] if d["typed"] >= 0 else None
-            ds = self.FakeDataset(i, t)
+            cls = self.WrappedDataset if d.get("wrapped") else self.FakeDataset
+            ds = cls(i, t, d.get("extra"))
             self.datasets[i] = ds
             self.add_stream(ds, i, None, "root", twin=ds)
-        self.overrides = [self.make_override(i) for i in range(4)]
+        self.overrides = [self.make_override(i) for i in range(5)]
         # shared AST objects (the same ast.Lambda instance may be handed to many calls)
         self.shared = [self.parse_lambda(src) for _, src in self.cfg["pool"]]
         real_dir = None
@@ -976,7 +1008,7 @@ class Forest:
         self.ev("new", m.idx, made_by, sdig(m.snap[0]))
         if len(self.live) > self.cfg.get("live_cap", 24):  # bound the state: forget the oldest
             for i, x in enumerate(self.live):
-                if x.made_by != "root":
+                if x.made_by not in ("root", "dataset"):
                     del self.live[i]
                     self.by_id.pop(x.op_id, None)
                     break
@@ -1163,7 +1195,7 @@ class Forest:
         if "C04" in self.oracles and parent.stream.item_type is not Any:
             # a parent with a known item type (a dict result) may legitimately refuse the
             # site's lambda by a designed type error; C04 sites start from untyped items
-            parent = self.live[parent.root]
+            parent = next(x for x in self.live if x.root == parent.root and x.made_by in ("root", "dataset"))
             self.stat("site_parent_replaced_by_root")
         if not c.usable(k):
             # invoked while one of its captured names has no value.  What the call does about
@@ -1333,6 +1365,21 @@ class Forest:
                 raise Violation("C16/backend", {"what": "dump/hash differ right after QMetaData",
                                                 "md": op["md"]})
 
+    def op_open_ds(self, op):
+        "A dataset object created while others are in use: nothing that exists may change."
+        self.last_op = "open-dataset"
+        idx = len(self.datasets)
+        t = self.zoo.EVT[op["typed"]] if op.get("typed", -1) >= 0 else None
+        cls = self.WrappedDataset if op.get("wrapped") else self.FakeDataset
+        ds, ex = self.builder(lambda: cls(idx, t, op.get("extra")))
+        if ex is not None:
+            self.stat("derive_raised")
+            return
+        self.datasets[idx] = ds
+        self.stat("datasets_opened_mid_history")
+        m = self.add_stream(ds, idx, None, "dataset", twin=ds)
+        self.check_root(ds, m.root, "open-dataset")
+
     def op_lookup_deep(self, op):
         "lookup_query_metadata with few frames left: RecursionError or the right answer."
         from func_adl.ast.meta_data import lookup_query_metadata
@@ -1399,13 +1446,13 @@ class Forest:
         parent = self.ref(op, "parent")
         kind = op["kind"]
         self.last_op = "failed-derive"
-        typed = self.cfg["datasets"][parent.root]["typed"] >= 0 if parent.root is not None else False
+        typed = parent.root is not None and self.datasets[parent.root].item_type is not Any
         k = op["lam"] % len(self.cfg["pool"])
         if kind == "where_nonbool":
             fn = lambda: parent.stream.Where(  # noqa: E731
                 self.shared[k] if self.cfg["pool"][k][0] != "Where" else "lambda e: e.x + 1")
         elif kind == "missing_arg":
-            if not typed or parent.made_by not in ("root", "Where", "MetaData", "QMetaData"):
+            if not typed or parent.made_by not in ("root", "dataset", "Where", "MetaData", "QMetaData"):
                 return
             fn = lambda: parent.stream.Select("lambda e: e.need()")  # noqa: E731
         elif kind == "cb_raise":
@@ -1543,7 +1590,7 @@ class Forest:
     def kwargs_for(self, call):
         kw = {}
         if call["override"]:
-            kw["executor"] = self.overrides[call["no"] % 4]
+            kw["executor"] = self.overrides[call["no"] % 5]
         if call["title"] is not None:
             kw["title"] = call["title"]
         return kw
@@ -1765,7 +1812,7 @@ class Forest:
                                               "exc": repr(res[1])[:200]})
             if st:
                 h = st[0]
-                exp_peer = f"OV{call['no'] % 4}" if call["override"] else m.root
+                exp_peer = f"OV{call['no'] % 5}" if call["override"] else m.root
                 if h["peer"] != exp_peer or not h["self_ok"]:
                     raise Violation("C12/route", {"call": call["no"], "expected": exp_peer,
                                                   "got": h["peer"], "self_ok": h["self_ok"]})
@@ -1846,6 +1893,8 @@ class Forest:
                 self.op_term(op)
             elif k == "lookup_deep":
                 self.op_lookup_deep(op)
+            elif k == "open_ds":
+                self.op_open_ds(op)
             elif k == "derive_fail":
                 self.op_fail(op)
             elif k == "rebind":
